@@ -757,6 +757,51 @@ def setitem(ctx: Ctx, a: Arr, key, value):
             has(T.tz(idx[0])), cast_elem(vfn(last(T.tz(idx[0])), *idx[1:]), dt), old(*idx)
         )
         return
+    if (a.ndim == 2 and len(keys) == 2 and isinstance(keys[0], slice) and keys[0] == slice(None) and is_arr(keys[1])
+            and keys[1].ndim == 1 and keys[1].dtype != "bool"):
+        # column scatter a[:, k] = value  (last write wins, as for the row scatter above)
+        k = keys[1]
+        n = a.shape[1]
+        if not _known_in_range(k, n):
+            t = T.fresh_int("t")
+            e = k.fn(t)
+            ctx.oblige(
+                T.ForAll([t], T.Implies(T.And(0 <= t, T.lt(t, k.shape[0])), T.And(T.le(T.neg(n), e), T.lt(e, n)))),
+                "scatter-index-in-bounds",
+                kind="index",
+            )
+        nn = _known_nonneg(k)
+        kf = (lambda t: k.fn(t)) if nn else (lambda t: T.Ite(T.ge(k.fn(t), 0), k.fn(t), T.add(k.fn(t), n)))
+        L = k.shape[0]
+        has = T.fresh_fun("hit", I, z3.BoolSort())
+        last = T.fresh_fun("last", I, I)
+        t = T.fresh_int("t")
+        i = T.fresh_int("i")
+        ctx.assume(
+            T.ForAll(
+                [t],
+                z3.Implies(z3.And(0 <= t, T.lt(t, L)), z3.And(has(T.tz(kf(t))), last(T.tz(kf(t))) >= t)),
+                [kf(t)] if T.is_sym(kf(t)) and not z3.is_var(kf(t)) else None,
+            ),
+            trusted="numpy:fancy-assignment(last write wins)",
+        )
+        ctx.assume(
+            T.ForAll(
+                [i],
+                z3.Implies(has(i), z3.And(0 <= last(i), T.lt(last(i), L), T.tz(kf(last(i))) == i)),
+                [has(i)],
+            )
+        )
+        if is_arr(value):
+            if value.ndim != 2:
+                raise PathAbort("column scatter with a non-matrix value", ctx.cur_line)
+            ctx.raise_unless(T.And(T.eq(value.shape[0], a.shape[0]), T.eq(value.shape[1], L)), "ValueError", "shape mismatch in fancy assignment")
+            vfn = lambda r, c: value.fn(r, c)
+        else:
+            vfn = lambda r, c: value
+        a.fn = lambda r, c: T.Ite(has(T.tz(c)), cast_elem(vfn(r, last(T.tz(c))), dt), old(r, c))
+        ctx.log_ghost("colscatter", (has, last))
+        return
     raise PathAbort("advanced assignment form", ctx.cur_line)
 
 
@@ -1044,6 +1089,19 @@ def concat(ctx: Ctx, parts, axis=0):
         return pick(j, lambda k, jj: cast_elem(parts[k].fn(*(idx[:axis] + (jj,) + idx[axis + 1 :])), dt))
 
     res = Arr(shape, fn, dt)
+    if nd == 1 and dt == "int" and len(parts) >= 2 and any(T.is_sym(p.shape[0]) for p in parts):
+        # 1-D concatenation of symbolic-length integer arrays (mode lists): a named function, defined by the
+        # piecewise expression and, redundantly, read from each part (so that mentioning part_k[j] makes the
+        # term cat(off_k + j) available to the solver)
+        cat = T.fresh_fun("cat", I, I)
+        ii = T.fresh_int("i")
+        ctx.assume(T.ForAll([ii], z3.Implies(z3.And(0 <= ii, T.lt(ii, offs[-1])), cat(ii) == T.tz(fn(ii))), [cat(ii)]))
+        for k_, p_ in enumerate(parts):
+            jj = T.fresh_int("j")
+            pj = p_.fn(jj)
+            if T.is_sym(pj) and _is_uf_app(pj):
+                ctx.assume(T.ForAll([jj], z3.Implies(z3.And(0 <= jj, T.lt(jj, p_.shape[0])), cat(T.tz(T.add(offs[k_], jj))) == T.tz(pj)), [pj]))
+        res = Arr(shape, lambda i: cat(T.tz(i)), dt)
     if axis == 0 and nd == 2 and all(getattr(p, "rowfn", None) is not None for p in parts):
         res.rowfn = lambda t: pick(t, lambda k, jj: parts[k].rowfn(jj))
     res.concat_of = (parts, offs, axis)
@@ -1260,9 +1318,20 @@ def np_argsort(ctx: Ctx, a: Arr):
 
 
 def np_sort(ctx: Ctx, a: Arr):
-    p = snap(np_argsort(ctx, a))
+    pa = snap(np_argsort(ctx, a))
     a = snap(a)
-    return Arr(a.shape, lambda i: a.fn(p.fn(i)), a.dtype)
+    perm = pa.ghost.get("perm")
+    if perm is None or a.dtype not in ("int", "real"):
+        return Arr(a.shape, lambda i: a.fn(pa.fn(i)), a.dtype)
+    p, pinv = perm
+    n = a.shape[0]
+    # the sorted sequence as a named function, with the (redundant) reading of every element of `a`
+    # as the sorted value at its rank: a[q] = sorted[pinv(q)]  (follows from p(pinv(q)) = q)
+    srt = T.fresh_fun("sorted", I, z3sort(a.dtype))
+    t = T.fresh_int("t")
+    ctx.assume(T.ForAll([t], z3.Implies(z3.And(0 <= t, T.lt(t, n)), srt(t) == T.tz(a.fn(p(t)))), [srt(t)]))
+    ctx.assume(T.ForAll([t], z3.Implies(z3.And(0 <= t, T.lt(t, n)), T.tz(a.fn(t)) == srt(pinv(t))), [pinv(t)]))
+    return Arr(a.shape, lambda i: srt(T.tz(i)), a.dtype)
 
 
 def isin_fn(ctx: Ctx, b: Arr):
@@ -1572,6 +1641,12 @@ def seq_as_row(ctx: Ctx, seq):
         ctx.assume(ax, trusted="lemma:product of positive extents is positive")
     if holder is not None:
         holder.ghost["as_row"] = r
+    # ground extensionality instances against the shape rows built so far: two shape rows that agree
+    # element-wise are the same row (so their PROD_R / RAVEL / UNRAVEL agree)
+    if getattr(ctx, "row_hints", False):  # opt-in (contracts whose preconditions mention spec-level shape rows)
+        for p_ in list(ctx.ghosts.get("row", []))[-8:]:
+            ctx.assume(row_ext(r, p_))
+            ctx.assume(row_ext(p_, r))
     ctx.log_ghost("row", r)
     return r
 
